@@ -102,4 +102,10 @@ Section C09.
     WF g -> multi (sp g) = false -> directed (sp g) = false ->
     matrix_triplets g = Ok tr -> In (i, j, w) tr -> In (j, i, w) tr.
   Proof. exact (matrix_symmetric teqb tltb tltb_asym tltb_total). Qed.
+  (* ... and every position (row, column) is emitted at most once, so the sparse matrix built from the
+     triplets (which sums repeated positions) holds exactly the stored weights *)
+  Theorem C09_matrix_positions_once : forall (g : gstate) tr,
+    WF g -> multi (sp g) = false -> matrix_triplets g = Ok tr ->
+    NoDup (map (fun t : nat * nat * weight => (fst (fst t), snd (fst t))) tr).
+  Proof. intros g tr. exact (matrix_positions_nodup teqb tltb g tr). Qed.
 End C09.
